@@ -232,6 +232,33 @@ for fmt in ("xyz", "pdb", "mol2", "sdf"):
             fails.append(((fmt, ln), "malformed frame skipped or sequence ended silently", len(got)))
         except LoadError:
             pass
+# extended XYZ trajectories whose frames use different Properties layouts: every frame must be what its own text says,
+# whatever layouts the frames before it had (species-only frames, then frames with both species and Z, and back)
+def ext_frame(layout, n, tag):
+    out = [str(n)]
+    if layout == "species":
+        out.append(f'Properties=species:S:1:pos:R:3 title="{tag}"')
+        out += [f"{['H', 'O', 'C'][i % 3]} {i * 1.0:.4f} {0.5 * i:.4f} {-0.25 * i:.4f}" for i in range(n)]
+    else:
+        out.append(f'Properties=species:S:1:pos:R:3:Z:I:1 title="{tag}"')
+        out += [f"{['Xa', 'Xb', 'Xc'][i % 3]} {i * 1.0:.4f} {0.5 * i:.4f} {-0.25 * i:.4f} {[1, 8, 6][i % 3]}" for i in range(n)]
+    return "\n".join(out) + "\n"
+for order in itertools.product(("species", "both"), repeat=3):
+    cases += 1
+    sizes = [int(rng.integers(1, 5)) for _ in order]
+    fn = os.path.join(tmp, "het.xyz")
+    with open(fn, "w") as fh: fh.write("".join(ext_frame(l, n, f"f{k}") for k, (l, n) in enumerate(zip(order, sizes))))
+    try:
+        got = list(load_many(fn, fmt="extxyz"))
+    except Exception as exc:
+        fails.append((("extxyz", order), "heterogeneous extended-XYZ trajectory cannot be loaded: " + type(exc).__name__)); continue
+    if len(got) != 3: fails.append((("extxyz", order), "number of frames changed", len(got))); continue
+    for k, (l, n, g) in enumerate(zip(order, sizes, got)):
+        want_z = [[1, 8, 6][i % 3] for i in range(n)]
+        want_species = None if l == "species" else [["Xa", "Xb", "Xc"][i % 3] for i in range(n)]
+        have_species = None if "species" not in g.extra else list(g.extra["species"])
+        if list(g.atnums) != want_z or have_species != want_species:
+            fails.append((("extxyz", order, k), "frame of a heterogeneous extended-XYZ trajectory differs from what its own text says", dict(atnums=list(map(int, g.atnums)), species=have_species, expected_species=want_species))); break
 sig = {}
 for f in fails: sig.setdefault(f[1], f)
 print(json.dumps(dict(cases=cases, nfails=len(fails), kinds={k: repr(v)[:400] for k, v in sig.items()}), default=str))
@@ -247,7 +274,7 @@ def run_bounded(chk):
         chk.fault(f"bounded driver crashed: {out.stderr[-1500:]}")
         return
     res = json.loads(out.stdout.strip().splitlines()[-1])
-    bound = f"4 dump_many formats x sequences of 1,2,3,{maxframes} frames (1..6 atoms) x list/generator/raising generator; truncation of a 3-frame file at every line; one corrupted numeric field per line of the middle frame"
+    bound = f"4 dump_many formats x sequences of 1,2,3,{maxframes} frames (1..6 atoms) x list/generator/raising generator; truncation of a 3-frame file at every line; one corrupted numeric field per line of the middle frame; all 8 orders of 3 extended-XYZ frames with two Properties layouts"
     for kind, example in sorted(res["kinds"].items()):
         script = BOUNDED.replace("seed, maxframes = int(sys.argv[1]), int(sys.argv[2])", f"seed, maxframes = {chk.seed}, {maxframes}").replace(_TAIL, f"print(sig.get({kind!r}))\nif {kind!r} in sig:\n    print('REPRODUCED'); sys.exit(1)")
         chk.add_bounded(f"trajectories.{kind}", bound, res["cases"], [example], replay_script=script)
